@@ -23,6 +23,17 @@ class Context:
         self._cfg = {}
         self._facts = None
         self.repo_stats = dict(self.repo.stats(), root=str(root))
+        # what the source normaliser did (all zero / empty on the reference tree)
+        norm_total = {}
+        for m in self.repo.modules.values():
+            for k, v in (getattr(m, "normalized", None) or {}).items():
+                if v:
+                    norm_total[k] = norm_total.get(k, 0) + v
+        self.repo_stats["normaliser"] = norm_total or "identity (nothing outside the reference vocabulary)"
+        if getattr(self.repo, "renamed_back", None):
+            self.repo_stats["functions_renamed_back"] = self.repo.renamed_back
+        if getattr(self.repo, "return_orders", None):
+            self.repo_stats["return_orders_restored"] = {k: list(v) for k, v in self.repo.return_orders.items()}
         self.cg_stats = self.cg.stats()
         if self.cg_stats["resolution"] < T.RESOLUTION_FLOOR:
             raise AnalysisError(
